@@ -84,6 +84,15 @@ Theorem c05_index : forall l,
 Proof. exact index_invariants_stable_histories. Qed.
 Print Assumptions c05_index.
 
+(* the same for histories of ENTRY POINTS (event handlers, assume/forget of pods, and
+   Plugin.Reserve / Plugin.Unreserve of a reserve pod on the node named by the call) *)
+Theorem c05_index_entry_points : forall hs,
+  all_along node_stable_op init_cache (flat_map lower hs) = true ->
+  index_sound (hrun init_cache hs) /\ index_complete (hrun init_cache hs)
+  /\ nomination_ok (hrun init_cache hs).
+Proof. exact index_invariants_entry_points. Qed.
+Print Assumptions c05_index_entry_points.
+
 (* the same from a hypothesis on the event list alone: every event of a reservation carries
    one and the same node name *)
 Theorem c05_index_by_event_nodes : forall nodeof l,
@@ -154,6 +163,17 @@ Example ex_hist_nontrivial :
   existsb (fun v => existsb (fun i => negb (is_nil (v_assigned i))) (o_infos v))
           (views_of ex_hist) = true.
 Proof. vm_compute. reflexivity. Qed.
+
+(* Reserve on node 1, rollback, retry on node 2 of a pending reservation (lister object without
+   node name): node-stable, and the indexes follow *)
+Definition ex_pending : rspec := mkSpec 2 0 0 false true 0 0 [] [(1, 4)] [] false 0.
+Definition ex_retry : list hop :=
+  [ HReserveRsv ex_pending 1; HUnreserveRsv ex_pending 1; HReserveRsv ex_pending 2 ].
+Example ex_retry_ok :
+  all_along node_stable_op init_cache (flat_map lower ex_retry) = true
+  /\ on_node (hrun init_cache ex_retry) = [(2, [2])]
+  /\ all_zero (codes ex_retry (flags_of ex_retry) (views_of ex_retry)) = true.
+Proof. vm_compute. auto. Qed.
 
 Example ex_fit_admits :
   fits_reservation (mkInfo (ex_spec [(1, 8)]) [1] [(1, 1)] [(1, 4)] [] false) [(1, 3)] [] = [].
